@@ -4,7 +4,8 @@ from mvlib import repo_samples, REPO
 import os
 
 PAYLOAD_TOKENS = ["x", "foo_1", "_a", "A", "Int", "0", "12", "007", "1.5", "0.", "2E3", "1.5E10", "3E",
-                  "\"s\"", "\"\"", "\"a{b}c\"", "\"a\\\"b\"", "# c", "#", "\"é\"", "\"{x + 1} and {y}\""]
+                  "\"s\"", "\"\"", "\"a{b}c\"", "\"a\\\"b\"", "# c", "#", "\"é\"", "\"{x + 1} and {y}\"",
+                  "\"{a != b}\"", "\"{a!r}\"", "\"{x <= y} {z}\"", "\"{f(a, b)[0]}\"", "\"{a.b!= c}:{d}\"", "\"{f(\\y => y + 1)} {z}\"", "\"{a\\_b}\""]
 
 
 def vocabulary():
@@ -62,6 +63,21 @@ def indented_program(rng, lines):
     if rng.random() < 0.5:
         text += nl
     return text
+
+
+def literal_layouts():
+    """every layout of a multi-line literal the position arithmetic distinguishes: opening column, number and width
+    of the inner lines, column of the closing quotes (before, at, after the opening column), what follows it"""
+    out = []
+    for quote in ('"""', '"'):
+        for lead in ("", "    ", "def s := ", "        x "):
+            for inner in ([], ["ab"], ["", "  long inner line here"], ["      deep"]):
+                for close_indent in (0, 2, 4, 9, 14):
+                    for last in ("", "t"):
+                        for follow in ("", " y", "\nz", "\n    w\n"):
+                            body = "first" + "".join("\n" + l for l in inner) + "\n" + " " * close_indent + last
+                            out.append(lead + quote + body + quote + follow)
+    return out
 
 
 def mutate(rng, text):
